@@ -13,7 +13,7 @@ from __future__ import annotations
 import ast
 from typing import List, Optional, Set
 
-from ..model import Program, AnalysisError, FuncInfo, walk_local, dotted
+from ..model import Program, AnalysisError, FuncInfo, walk_local, dotted, parents_of
 from ..report import RuleResult, guard
 from .usertruth import user_truth
 from ..astutil import src, site, calls_in, call_name, is_self_attr, is_super_call, kwarg, names_in, const_value
@@ -841,6 +841,96 @@ def mc_args(prog: Program) -> RuleResult:
     return r
 
 
+def mc_reject(prog: Program) -> RuleResult:
+    """'Leave the field containing exactly the elements Python semantics dictate' includes the writes Python rejects: x.f[5] = v on two
+    elements raises IndexError and changes nothing - so nothing may have been recorded for v either (a relation and an inverse for an
+    element that never became part of the field), and a position the list does not have must not be turned into one it has.  Item
+    assignment records first and stores afterwards (recording can append inferred elements), so the position has to be validated against
+    the list *before* the hook runs; an extended slice takes exactly as many values as it has positions."""
+    from ..dtable import explore as _explore, Sym as _Sym, term as _term
+
+    r = RuleResult("MC-REJECT", "a write the list rejects is rejected before anything is recorded", floor=1)
+    mc = prog.cls(MC)
+    n = 0
+    for c in [c for c in prog.subclasses(mc.qual, strict=True) if _builtin_base(prog, c) == "list"]:
+        f = prog.lookup(c.qual, "__setitem__")
+        if f is None or f.cls is None or f.cls.qual.startswith("ext:"):
+            continue
+        n += 1
+        helpers = {g.qual for g in c.methods.values() if g.name.startswith("_") and not g.name.startswith("__")}
+        ip = f.params[1]
+        try:
+            paths = _explore(prog, f, [_Sym(p) for p in f.params], self_type=c.qual, max_paths=600, inline=lambda q: q in helpers and not q.endswith("._on_add"), generic_loops=True,
+                             preset={("isinstance", ip, "slice"): False})
+        except AnalysisError as e:
+            raise AnalysisError(f"MC-REJECT: {c.name}.__setitem__: {e}")
+        bad = None
+        n_rec = 0
+        for val, out, calls in paths:
+            names = [getattr(x, "fn", "") for x in calls]
+            hook_i = next((i for i, x in enumerate(names) if x.endswith("._on_add")), None)
+            store_i = next((i for i, x in enumerate(names) if x.startswith("super().") and x.endswith("__setitem__")), None)
+            if hook_i is None:
+                continue
+            n_rec += 1
+            if store_i is not None and store_i < hook_i:
+                continue  # the list has accepted the position already
+            below = above = False
+            for k, v in val.items():
+                if not (isinstance(k, tuple) and k[0] == "ord" and len(k) == 3):
+                    continue
+                a, b = k[1], k[2]
+                if ip in a and b == "len(self)" and v == -1 or ip in b and a == "len(self)" and v == 1:
+                    below = True
+                if a == "neg(len(self))" and ip in b and v in (-1, 0) or b == "neg(len(self))" and ip in a and v in (0, 1):
+                    above = True
+                if ip in a and "len(self)" in a and a.startswith("Add(") and b == "0" and v in (0, 1):
+                    above = True
+            if not (below and above):
+                bad = bad or {" ".join(map(str, k[1:])): v for k, v in val.items() if isinstance(k, tuple) and k[0] == "ord"}
+        r.check(n_rec > 0 and bad is None, f"{c.name}.__setitem__#position-validated-before-recording", site(f), f"{n_rec} recording path(s)",
+                "every path that records has established -len <= position < len (or has stored first)",
+                f"on the path {bad if bad else ''} the element is recorded without the position having been checked against the list: x.f[len] = v raises IndexError after v was related to x "
+                f"(and its inverse written), x.f[-len-1] = v is resolved to a negative position once more and overwrites an element the caller never addressed")
+        # the slice form: an extended slice is validated for its size before the values are recorded
+        par = parents_of(f.node)
+        sl = [t for t in walk_local(f.node) if isinstance(t, ast.If) and "isinstance" in src(t.test) and "slice" in src(t.test)]
+        if not sl:
+            raise AnalysisError(f"MC-REJECT: {c.name}.__setitem__ no longer separates the slice form")
+        body = sl[0].body
+        rec_i = next((i for i, st in enumerate(body) if any(call_name(x) == "_on_add" for x in calls_in(st))), None)
+        if rec_i is None:
+            r.ok(f"{c.name}.__setitem__#extended-slice-size-validated", site(f, sl[0]), "", "the slice form records through another path")
+            continue
+        guard_ok = False
+        for st in body[:rec_i]:
+            for t in [x for x in ast.walk(st) if isinstance(x, ast.If)]:
+                txt = src(t.test)
+                if "len(" in txt and any(isinstance(y, ast.Raise) for y in ast.walk(t)) and ("step" in txt or "range(" in txt or "positions" in txt):
+                    guard_ok = True
+        r.check(guard_ok, f"{c.name}.__setitem__#extended-slice-size-validated", site(f, body[rec_i]), src(body[rec_i])[:80],
+                "the number of values is compared with the number of positions of an extended slice before the values are recorded",
+                "the values of a slice assignment are recorded before the list has accepted them: x.f[::2] = [d] on three elements raises ValueError (one value for two positions) after d "
+                "was related to x and its inverse written")
+    if n < 1:
+        raise AnalysisError("MC-REJECT: no list-valued monitored container defines __setitem__")
+    # a set rejects what cannot be hashed
+    for c in [c for c in prog.subclasses(mc.qual, strict=True) if _builtin_base(prog, c) == "set"]:
+        for g in sorted(c.methods.values(), key=lambda x: x.qual):
+            cs = calls_in(g.node)
+            hooks = [x for x in cs if call_name(x) == "_on_add"]
+            stores = [x for x in cs if is_super_call(x, "add")]
+            if not hooks or not stores:
+                continue
+            first_hook = min(hooks, key=lambda x: (x.lineno, x.col_offset))
+            hashed = [x for x in cs if isinstance(x.func, ast.Name) and x.func.id == "hash" and (x.lineno, x.col_offset) < (first_hook.lineno, first_hook.col_offset)]
+            store_first = any((x.lineno, x.col_offset) < (first_hook.lineno, first_hook.col_offset) for x in stores)
+            r.check(bool(hashed) or store_first, f"{c.name}.{g.name}#hashable-before-recording", site(g, first_hook), src(first_hook)[:80],
+                    "the element is hashed (or stored) before it is recorded",
+                    "the element is recorded before the set has accepted it: x.f.add(u) for an element that cannot be hashed raises TypeError after u was related to x and its inverse written")
+    return r
+
+
 def _sg_purge(prog):
     # an element written to a field is recorded unless its relation "exists": a pair a swept instance left in the relation index answers for
     # whoever reuses its node index
@@ -882,4 +972,4 @@ def _pd_field(prog):
 
 def run(prog: Program, tier: str) -> List[RuleResult]:
     alias = pd_alias(prog)
-    return [guard(lambda: _pd_field(prog)), guard(lambda: _sg_purge(prog)), guard(lambda: pd_element(prog)), guard(lambda: mc_cover(prog)), guard(lambda: mc_hook(prog)), alias, guard(lambda: pd_aug(prog, not alias.failed)), guard(lambda: pd_seq(prog)), guard(lambda: pd_single(prog)), guard(lambda: mc_once(prog)), guard(lambda: pd_fresh(prog)), guard(lambda: mc_eq(prog)), guard(lambda: mc_args(prog)), guard(lambda: user_truth(prog, ["property_descriptor.property_descriptor", "property_descriptor.monitored_container", "property_descriptor.property_descriptor_relation"], 2))]
+    return [guard(lambda: _pd_field(prog)), guard(lambda: _sg_purge(prog)), guard(lambda: pd_element(prog)), guard(lambda: mc_cover(prog)), guard(lambda: mc_hook(prog)), alias, guard(lambda: pd_aug(prog, not alias.failed)), guard(lambda: pd_seq(prog)), guard(lambda: pd_single(prog)), guard(lambda: mc_once(prog)), guard(lambda: pd_fresh(prog)), guard(lambda: mc_eq(prog)), guard(lambda: mc_args(prog)), guard(lambda: mc_reject(prog)), guard(lambda: user_truth(prog, ["property_descriptor.property_descriptor", "property_descriptor.monitored_container", "property_descriptor.property_descriptor_relation"], 2))]
